@@ -37,6 +37,7 @@ var wlists = [][]string{
 	{"ab", "2"},
 	{"c", "1", "b", "2", "a", "1"},
 	{"a", ""}, // an empty value (the state's "deleted" marker): a persisted leaf that a later update replaces
+	{},        // 6: no writes at all (a block without state changes): the pending "update" is the parent's root itself
 }
 
 func wname(i int) string {
@@ -203,6 +204,9 @@ func (h harness) seq(r *vx.Run) *vx.Seq[*sys] {
 				return ""
 			}
 			w := h.ws[j%h.nW]
+			if len(wlists[w]) == 0 && p.depth == 0 {
+				return "" // no writes on the empty state: there is no root to speak of
+			}
 			set := &types.StoreSet{StateHash: p.root, KV: mvx.KV(wlists[w]...), Height: p.depth + 1}
 			v := ver{depth: p.depth + 1, content: apply(p.content, w), id: fmt.Sprintf("%x|%d|%d", p.root, w, p.depth+1)}
 			var err error
@@ -352,7 +356,7 @@ func main() {
 	r.QuietStderr()
 	debug.SetGCPercent(400)
 	r.DistinctSet = "outcomes"
-	r.Rule = "per sub-configuration (plain, prefix, prune, prefix+memTree, prefix+memTree+memVal, plain+memTree+memVal): BFS over all histories of {MemSet(parent,W), Set(parent,W), Commit(oldest|newest pending), Rollback(oldest|newest pending), Restart} with parent in {empty root, newest committed(, previous committed)}, W from ordered write lists over prefix-sharing keys (including lists that restore the parent's content), block height = number of updates from the empty root (two updates from one parent are a fork at equal height). state = (committed roots, pending roots+heights, raw database, global caches). After every operation: every committed root read in full against its content; MemSet/Rollback/Restart leave the raw database byte-identical; the store's pending set equals the model's. distinct = (operation, number of other pending/committed updates) situations observed"
+	r.Rule = "per sub-configuration (plain, prefix, prune, prefix+memTree, prefix+memTree+memVal, plain+memTree+memVal): BFS over all histories of {MemSet(parent,W), Set(parent,W), Commit(oldest|newest pending), Rollback(oldest|newest pending), Restart} with parent in {empty root, newest committed(, previous committed)}, W from ordered write lists over prefix-sharing keys (including lists that restore the parent's content, a list with an empty value and the EMPTY list: a block without state changes, whose pending update is the parent's root itself), block height = number of updates from the empty root (two updates from one parent are a fork at equal height). state = (committed roots, pending roots+heights, raw database, global caches). After every operation: every committed root read in full against its content; MemSet/Rollback/Restart leave the raw database byte-identical; the store's pending set equals the model's. distinct = (operation, number of other pending/committed updates) situations observed"
 	r.Assume = []string{"concurrent part (conc.go): per configuration, MemSet+Commit / MemSet+Rollback-or-Commit / reads from three threads on the instrumented store under every schedule within the deviation bound", "values are non-empty; parents are committed roots", "restart on the in-memory backend = new Store object on the same database, node cache and package globals dropped", "pruning does not run (interval 10000)"}
 	cfgs := []mvx.Cfg{
 		{Name: "plain"},
@@ -364,9 +368,9 @@ func main() {
 	}
 	mk := func(c mvx.Cfg) harness {
 		if r.Quick() {
-			return harness{c, 2, 5, 4, []int{0, 5, 1, 2, 3}}
+			return harness{c, 2, 6, 4, []int{0, 5, 6, 1, 2, 3}}
 		}
-		return harness{c, 3, 6, 5, []int{0, 5, 1, 2, 3, 4}}
+		return harness{c, 3, 7, 5, []int{0, 5, 6, 1, 2, 3, 4}}
 	}
 	if raw, ok := r.Replaying(); ok {
 		var c struct {
